@@ -75,6 +75,16 @@ def expect_tlv(st, ty, ln, payload):
             if eqb(g, b0):
                 return True
             g = st.canon(g)
+            from ..terms import mk_sext, lin_of as _lin
+            sx8 = st.canon(mk_sext(st.canon(b0), 1))
+            ds8 = st.dom(sx8)
+            # the byte written as (uint8_t) of the int8 value: sext(b) on a path that knows it non-negative, sext(b) + 256 on
+            # a path that knows it negative - both are b
+            if g == sx8 and ds8.lo >= 0:
+                return True
+            lg = _lin(g)
+            if lg is not None and len(lg.co) == 1 and list(lg.co.items())[0] == (sx8, 1) and lg.k == 256 and ds8.hi < 0:
+                return True
             if g[0] == 'byte' and g[2] == 0:
                 from ..terms import lin_of
                 l = lin_of(g[1])
